@@ -38,6 +38,8 @@ CONSTANTS N,             \* operators
           Shorten,       \* "notlast" = code; "last" = negative control (the buffer used last ends earlier)
           CascadeTime,   \* "shared" = code; "own" = negative control (every cascaded operator gets its own time)
           OutputsAt,     \* "end" = code; "producer" = negative control (network outputs not extended to the end)
+          VarsAt,        \* "whole" = code: a variable (state) tensor is live over the entire inference; "uses" = negative
+                         \* control (it gets the first-use..last-use range of an ordinary feature map)
           Protect        \* "asis" = code: of the tensors an NPU subgraph reads from CPU operators only network inputs with
                          \* several consumers and network outputs are write protected, and the memcpy branch ignores
                          \* the flag (FuseSafe fails: real defect, harness/repro/liverange_inplace_cpu_producer.py);
@@ -222,7 +224,7 @@ LeaveNpu ==     \* sg.output_tensors at the time after the last operator; the ca
 Finish ==
    /\ pc = "next" /\ ~run.active /\ Len(ops) = N
    /\ LET r1 == IF OutputsAt = "end" THEN MarkSet(rng, {rid[c] : c \in {x \in 1..N : ops[x].out}}, now, 1) ELSE rng
-      IN rng' = IF net.var # 0 THEN Mark(r1, rid[net.var], 0, now + 1) ELSE r1
+      IN rng' = IF net.var # 0 /\ VarsAt = "whole" THEN Mark(r1, rid[net.var], 0, now + 1) ELSE r1
    /\ pc' = "done"
    /\ UNCHANGED <<ops, net, now, tts, run, ctime, rid>>
 
